@@ -559,7 +559,8 @@ def molecules(ctx):
              'C1CC1C1CCC1', 'C1CCC2(CC1)CCCC2', 'C12C3C4C1C5C2C3C45', 'O=S(=O)(O)O', 'N#CC#N', 'C=C=C=C', 'c1ccc2[nH]ccc2c1',
              'C1CCCCCCCCCCCCC1', 'OC(=O)c1ccccc1O', '[Na+].[O-]c1ccccc1', 'C1=CC=C1', '[CH2]C=C |^1:0|', 'P(=O)(O)(O)O',
              '[Cu+2].[O-]C(=O)C.[O-]C(=O)C', 'C1CC2CCC1C2', 'c1ccc2cc3ccccc3cc2c1', 'CC(C)(C)(C)C', 'CCO.CCN.CCS', 'CC.CC.CC',
-             'C1CC1.C1CC1', 'OCC(O)CO', 'NC(=O)C(N)=O', '[La]', '[Ba]', '[Cs+].[I-]', '[U](F)(F)(F)(F)(F)F', '[Lu]', 'Cl[Hf](Cl)(Cl)Cl',
+             'CN(C)[O] |^1:3|', '[O]O[O] |^1:0,2|', 'CN(C)O', 'OOO', '[H]C([H])([H])C', '[2H]C([2H])O', 'C[13CH2][O] |^1:3|', 'C[CH]C |^1:1|',
+             'C[NH] |^1:1|', '[CH2]CC[CH2] |^1:0,3|', 'CNC', 'C1CC1.C1CC1', 'OCC(O)CO', 'NC(=O)C(N)=O', '[La]', '[Ba]', '[Cs+].[I-]', '[U](F)(F)(F)(F)(F)F', '[Lu]', 'Cl[Hf](Cl)(Cl)Cl',
              '[Mc]', '[Fl]', '[14CH3][14CH3]', '[12CH4]', '[18OH2]', 'C1CCCCCCCCCCCCCCCCCCCCCCCCCCCCCCCCCCCCCCCCCCCCCCCCCCCCCCCCCCCCCCCCCCCC1',
              'C1CCCCCCCCCCCCCCCCCCCCCCCCCCCCCCCCCCCCCCCCCCCCCCCCCCCCCCCCCCCCCCCC1']
     for s in extra:
@@ -586,6 +587,7 @@ def molecules(ctx):
             mols.append((name + '/renum', r))
         except Exception:
             continue
+    mols += coord_targets(ctx)[:60 if ctx.quick else 400]
     ok = []
     for name, m in mols:
         try:
@@ -612,6 +614,8 @@ SMARTS = [
     'c1cc[nH]c1'.replace('[nH]', '[N;a;h1]'), 'C1CC2CC1CC2', 'C12CC1C2', 'C1CC11CC1', '[C;a]:[C;a]:[N;a]', '[A]1[A][A][A][A][A]1', '[A]~[A]~[A]',
     'C.C', 'C.N', 'CC.O', 'CO.CN', 'C.C.C', 'C1CC1.C', '[Na+].[O-]', '[M].[A]', 'CC.CC', '[C;D1].[C;D1]', 'C(C)(C)(C)C', 'C=CC=C', 'N#CC#N',
     'C[N+](=O)[O-]', '[C;D2;r5]1[C;D2][C][C][C]1', 'C1=CC=CC=C1', '[C;z2]=[C;z2]', '[C,N;D2]-[C,O;D1]', '[A;h1,h2]-[A;h0]', 'C-[M]', '[M]-,=[A]',
+    '[C] |^1:0|', '[O;D1][N;D3] |^1:0|', '[C,N;D2] |^1:0|', '[A]C |^1:0|', '[13C] |^1:0|', '[O;D1][O;D2][O;D1] |^1:0,2|', '[A] |^1:0|',
+    'C[C] |^1:1|', '[N,O;D1]-[A] |^1:0|', '[2H]C', '[H]C', '[A;h0;D1]', 'C-[H]',
     '[Fe]', '[La]', '[Ba]', '[Lu]', '[Hf]', '[U]', '[Cs,I]', '[La,C]', '[Ba,La]', '[C;r14]', '[C;r66]', '[C;r65]', '[C;h5]', '[21C]', '[4C]',
 ]
 
@@ -699,6 +703,73 @@ def cage_pairs(ctx):
                 continue
             tname, t = (name, m) if k % 3 else rng.choice(cages)
             yield (f'cagecut({name}) @ {tname}', q, t, rng.random() < 0.3, None)
+
+
+# coordination (order 8, "special") bonds: ring perception, `in_ring`, `neighbors`, hybridisation ignore them, so a cycle closed
+# through them carries NO ring mark on any of its bonds and its atoms have fewer `neighbors` than graph neighbours — the inputs on
+# which a matcher that infers topology from label bits (ring bit, degree bits) goes wrong
+COORD = ['[Cu]1~NCCO~1', '[Zn]1~OC(C)=CC(C)=O~1', '[Cu]1~O~[Cu]~O~1', 'C1~CC1', 'N~[Pt](~N)(Cl)Cl', '[Fe]1~NCCN~1', '[Ni]12~NCCN~1CCO~2',
+         '[Cu]1~OC(=O)CN~1', '[Pd]1~C=C~1', 'C1CC~CC1', 'C1CCCC~1', 'O1~CCC~O~[Mg]~1', '[Co]1~NCCCN~1',
+         'C1C~C1C', 'N1~[Cu]2~NCC1CCO~2', '[Fe]1~C=CC=C~1', 'Cl[Pt]1(Cl)~NCCN~1', 'C~C', 'C~C~C', 'O~[Na]', '[Zn]1~OCCO~1.[Zn]1~OCCO~1',
+         'C1=CC=CC=C1~[Cr]', 'c1ccccc1~[Cr]', '[Cu]1~N2CCN~1CC2', 'C1CC2~CC1CC2', 'C1C2~C1C2']
+COORD_QUERIES = ['[Cu]~N-C-C-O', 'N-C-C-O', '[Zn]~O-C-C-C-O', 'O~[Zn]~O', '[M]~[A]', '[M]~[N]-C', '[A]~[A]~[A]', 'C~C', '[M]~O-C', 'C-C-C', 'C-C',
+                 '[A]-,~[A]', '[M]1~[A][A][A][A]~1', '[M]1~NCCN~1', 'N-C-C-N', '[M]~N-C-C-N', 'C1~CC1', 'C~C-C', '[A]~[A]-[A]-[A]', '[A]-[A]~[A]~[A]',
+                 'O~[M]~O', '[M]~[A]~[M]', 'N~[M](~N)Cl', '[A]!~[A]', '[A]!-[A]']
+
+
+def coord_targets(ctx):
+    if 'coord' in _state:
+        return _state['coord']
+    rng = ctx.rng
+    out = []
+    for s in COORD:
+        m = molgen.parse(s)
+        if m is not None:
+            out.append((s, m))
+    # cyclic skeletons (small graphs, ring assemblies) with a random subset of bonds made special, metals at some vertices
+    graphs = [e for n in (3, 4, 5) for e in molgen.small_graphs(n) if len(e) >= len({v for x in e for v in x})]
+    want = 40 if ctx.quick else 400
+    for i in range(want):
+        try:
+            edges = rng.choice(graphs) if i % 3 else molgen.ring_assembly(rng, max_rings=3)
+            verts = sorted({v for x in edges for v in x})
+            metals = set(rng.sample(verts, rng.choice([0, 1, 1, 2]))) if len(verts) > 2 else set()
+            els = {v: (rng.choice(['Cu', 'Fe', 'Zn', 'Pd', 'Na']) if v in metals else rng.choice(['C', 'C', 'C', 'N', 'O'])) for v in verts}
+            orders = {}
+            for a, b in edges:
+                special = rng.random() < (0.85 if (a in metals or b in metals) else 0.15)
+                orders[(a, b)] = 8 if special else rng.choice([1, 1, 1, 2])
+            m = molgen.from_edges(edges, els, orders, calc=False)
+            m.calc_labels()
+            out.append((f'coord{i}', m))
+        except Exception:
+            continue
+    for name, m in list(out[:10 if ctx.quick else 40]):
+        try:
+            r, _ = molgen.renumber(rng, m)
+            out.append((name + '/renum', r))
+        except Exception:
+            continue
+    _state['coord'] = out
+    return out
+
+
+def coord_pairs(ctx):
+    rng = ctx.rng
+    targets = coord_targets(ctx)
+    qs = [(s, parse_smarts(s)) for s in COORD_QUERIES]
+    qs = [(s, q) for s, q in qs if q is not None]
+    for qs_, q in qs:
+        for name, m in targets:
+            if not name.startswith('coord') or rng.random() < 0.35:
+                yield (f'{qs_} @ {name}', q, m, False, None)
+    for name, m in targets:
+        if len(m) < 3:
+            continue
+        for k in range(4 if ctx.quick else 12):
+            q = cut_pattern(rng, m, rng.randint(2, min(7, len(m))), drop_cycle_bond=(k % 2 == 0), plain=(k % 4 < 2))
+            tname, t = (name, m) if k % 3 else rng.choice(targets)
+            yield (f'coordcut({name}) @ {tname}', q, t, rng.random() < 0.3, None)
 
 
 def parse_smarts(text):
@@ -818,6 +889,7 @@ def pair_stream(ctx, n_smarts_pairs, n_cut, n_multi):
             scope = sorted(rng.sample(atoms, rng.randint(0, len(atoms))))
         yield (f'{s} @ {name}', q, m, auto, scope)
     yield from cage_pairs(ctx)
+    yield from coord_pairs(ctx)
     for qs_, ms_ in TRICKY_PAIRS:
         q, m = parse_smarts(qs_), molgen.parse(ms_)
         if q is not None and m is not None:
@@ -847,7 +919,11 @@ def pair_stream(ctx, n_smarts_pairs, n_cut, n_multi):
         q = union_queries(a, b)
         if rng.random() < 0.3:
             q = union_queries(q, cut_pattern(rng, m, 1))
-        yield (f'multi({name})', q, m, rng.random() < 0.5, None)
+        scope = None
+        if rng.random() < 0.3:
+            atoms = list(m._atoms)
+            scope = sorted(rng.sample(atoms, rng.randint(1, len(atoms))))
+        yield (f'multi({name})', q, m, rng.random() < 0.5, scope)
 
 
 # ------------------------------------------------------------------------------------------------
@@ -1339,7 +1415,7 @@ def stream_hist(ctx):
     import random
     smis = list(HIST_SMILES)
     extra = molgen.corpus_smiles()
-    smis += ctx.rng.sample(extra, 12 if ctx.quick else 150)
+    smis += ctx.rng.sample(extra, 12 if ctx.quick else 60)
     ops = HIST_OPS
     n = 0
     for smi in smis:
